@@ -46,6 +46,8 @@ func runC01(c *Ctx) {
 	ruleOffsetsAppend(c, p)
 	ruleNullFlag(c, p)
 	ruleStateSet(c, p)
+	ruleForwardAll(c, p, "C01.forward-all")
+	ruleMapInfer(c, p, "C01.mapinfer")
 	ruleStringIdioms(c, p, "C01.idioms")
 	ruleResetBefore(c, p, "C01.reset")
 	c.R.Assumptions = append(c.R.Assumptions,
@@ -412,6 +414,12 @@ func ruleForward(c *Ctx, p *core.Program) {
 			missing := []string{}
 			for _, f := range fields {
 				found := false
+				for _, fw := range core.ForwardedInvokes(fn, m) {
+					ap := accessPath(fw.Recv, 0)
+					if f == "[]" && strings.Contains(ap, "[]") || strings.Contains(ap, "."+f) {
+						found = true
+					}
+				}
 				for fnc := range core.StaticReach(fn, 1) {
 					for _, call := range core.Calls(fnc) {
 						cf := core.CalleeFunc(call)
@@ -943,6 +951,53 @@ func ruleScratchAlias(c *Ctx, p *core.Program, rule string) {
 			}
 			if !bad {
 				c.R.Ok(rule, key, cfg, p.Pos(call.Pos()), "scratch only read")
+			}
+		}
+	}
+	c.R.Floor(rule, cfg, n, 3)
+}
+
+// ruleForwardAll (C01.forward-all): a forwarding loop does not stop at the first element that lacks the optional interface.
+func ruleForwardAll(c *Ctx, p *core.Program, rule string) {
+	c.R.Rule(rule, "in the multi-element wrappers (Tuple ...) the loops that forward an optional capability to every element (`if s, ok := v.(StateEncoder); ok { ... }` for EncodeState / DecodeState / Prepare / Infer) continue with the next element when the type test fails: from the failing edge of the test the function exit is reachable only through the loop header - a `break` / `return` there skips the state prefix of every later element while the other direction still handles it")
+	cfg := p.Cfg.Name
+	n := 0
+	for _, ct := range columnTypes(p) {
+		for _, mn := range []string{"EncodeState", "DecodeState", "Prepare", "Infer", "Reset"} {
+			fn := methodOf(p, ct, mn)
+			if fn == nil || fn.Blocks == nil {
+				continue
+			}
+			k := 0
+			for _, b := range fn.Blocks {
+				ifi, ok := b.Instrs[len(b.Instrs)-1].(*ssa.If)
+				if !ok || !core.InLoop(ifi) {
+					continue
+				}
+				ex, ok := ifi.Cond.(*ssa.Extract)
+				if !ok || ex.Index != 1 {
+					continue
+				}
+				ta, ok := ex.Tuple.(*ssa.TypeAssert)
+				if !ok || !ta.CommaOk {
+					continue
+				}
+				h := core.LoopHeader(ifi)
+				if h == nil {
+					continue
+				}
+				n++
+				k++
+				key := sprintf("%s.%s/test#%d", ct.Obj().Name(), mn, k)
+				hits := core.ReachAvoiding(core.Point{B: b.Succs[1], I: -1}, func(x ssa.Instruction) bool {
+					_, isRet := x.(*ssa.Return)
+					return isRet && x.Block().Comment != "recover"
+				}, func(x ssa.Instruction) bool { return x.Block() == h }, nil)
+				if len(hits) > 0 {
+					c.R.Bad(rule, key, cfg, p.Pos(ifi.Cond.Pos()), "when an element does not implement "+types.TypeString(ta.AssertedType, func(*types.Package) string { return "" })+" the loop is left instead of continued: the elements after it are not forwarded to")
+				} else {
+					c.R.Ok(rule, key, cfg, p.Pos(ifi.Cond.Pos()), "failing type test continues with the next element")
+				}
 			}
 		}
 	}
